@@ -273,7 +273,7 @@ pub fn run(a: &Args) {
     }
     st.note(&format!("all {} lead-bounded schedules over {{A,B}} of length {} for cap 1..3 enumerated (each by_ref, by_rc, re-split)", n_exh, l_max));
     // ---- 2. random structured schedules, lead <= cap
-    let n_rand = if a.thorough() { 300_000 } else { 20_000 };
+    let n_rand = if a.thorough() { 300_000 } else { 60_000 };
     for i in 0..n_rand {
         let cap = match rng.below(10) { 0..=3 => 1 + rng.usize_below(4), 4..=6 => 1 + rng.usize_below(16), 7 | 8 => 1 + rng.usize_below(64), _ => 64 };
         let long = a.thorough() && i % 20 == 0;
@@ -285,7 +285,7 @@ pub fn run(a: &Args) {
         case(&mut st, cap, &src, &ops, if long { "random_long" } else { "random" });
     }
     // ---- 3. outside the property's domain (lead > cap: frames are overwritten): model correspondence only
-    let n_over = if a.thorough() { 40_000 } else { 4_000 };
+    let n_over = if a.thorough() { 40_000 } else { 8_000 };
     for _ in 0..n_over {
         let cap = 1 + rng.usize_below(5);
         let len = 2 + rng.usize_below(40);
